@@ -41,6 +41,8 @@ type worldSpec struct {
 	Flavor int    // path flavour: 0 plain, 1 non-ASCII with space, 2 sub directory
 	PushU  string // second remote `upstream`: "" (no such remote) | none | partial | full (what was pushed to it)
 	Ref    string // history KR only: kind of the ref that names the commit c2 (see c05RefKinds)
+	Zone   string // UTC offset the author/committer dates are written with ("" = the historical spelling ...Z, i.e. +0000)
+	AgeH   []int  // when set: age in HOURS per commit slot (replaces the day rule of Ages; product zones)
 }
 
 // kinds of ref that can make a commit "recent" (product refkinds): the history KR has a commit c2 in the middle of the
@@ -54,6 +56,9 @@ func (s worldSpec) Key() string {
 	}
 	if s.Ref != "" {
 		k += "/ref=" + s.Ref
+	}
+	if s.Zone != "" || s.AgeH != nil {
+		k += fmt.Sprintf("/zone=%s/hours=%v", s.Zone, s.AgeH)
 	}
 	return k
 }
@@ -137,6 +142,9 @@ type buildFail struct {
 const c05LocalSlot = 7 // slot for stash / worktree commits: 35 days old
 
 func (b *wb) ageSeconds(slot int) int64 {
+	if b.spec.AgeH != nil && slot < len(b.spec.AgeH) {
+		return int64(b.spec.AgeH[slot]) * 3600
+	}
 	k := 35
 	if slot < len(b.spec.Ages) {
 		k = b.spec.Ages[slot]
@@ -145,7 +153,16 @@ func (b *wb) ageSeconds(slot int) int64 {
 }
 
 func (b *wb) dateEnv(slot int) []string {
-	d := c05Now.Add(-time.Duration(b.ageSeconds(slot)) * time.Second).UTC().Format("2006-01-02T15:04:05Z")
+	t := c05Now.Add(-time.Duration(b.ageSeconds(slot)) * time.Second)
+	d := t.UTC().Format("2006-01-02T15:04:05Z")
+	if z := b.spec.Zone; z != "" {
+		// the same instant, written as the wall-clock time of a committer living at UTC offset z
+		sec := (int(z[1]-'0')*10+int(z[2]-'0'))*3600 + (int(z[3]-'0')*10+int(z[4]-'0'))*60
+		if z[0] == '-' {
+			sec = -sec
+		}
+		d = t.In(time.FixedZone(z, sec)).Format("2006-01-02 15:04:05 -0700")
+	}
 	return []string{"GIT_AUTHOR_DATE=" + d, "GIT_COMMITTER_DATE=" + d, "GIT_LFS_SKIP_PUSH=1"}
 }
 
@@ -257,6 +274,11 @@ func (b *wb) history() {
 		b.set(b.A, "a4")
 		b.set(b.B, "b2")
 		b.commit("c3", 3)
+	case "XY":
+		// two commits, LFS files in the directories x/ and y/ (b.A = x/a.bin, b.B = y/b.bin), both replaced by c2 (HEAD)
+		b.set(b.A, "a2")
+		b.set(b.B, "b2")
+		b.commit("c2", 1)
 	default:
 		panic(buildFail{"unknown history " + b.spec.Hist, false})
 	}
@@ -390,6 +412,42 @@ func (b *wb) local(kind string) {
 		b.set("n.bin", "g2")
 		b.commit("lc", c05LocalSlot)
 		b.stageIn(b.repo, b.A, "g3", "n.bin", "g4", strings.TrimPrefix(strings.TrimPrefix(kind, "restaged"), "-"), "e")
+	case "mv-within", "mv-sub", "mv-x-to-y", "mv-y-to-x", "mv-swap", "mv-x-to-y-edit", "cp-x-to-y", "cp-y-to-x":
+		// history XY: staged, uncommitted renames / copies of pushed LFS files (the index names the object at a new path)
+		mv := func(from, to string) {
+			if err := os.MkdirAll(filepath.Join(b.repo, filepath.Dir(to)), 0755); err != nil {
+				panic(buildFail{err.Error(), false})
+			}
+			b.git("mv", "--", from, to)
+		}
+		cp := func(from, to string) {
+			data, err := os.ReadFile(filepath.Join(b.repo, from))
+			if err != nil {
+				panic(buildFail{err.Error(), false})
+			}
+			gitx.WriteFile(b.repo, to, data, 0644)
+			b.git("add", "--", to)
+		}
+		switch kind {
+		case "mv-within":
+			mv("x/a.bin", "x/c.bin")
+		case "mv-sub":
+			mv("x/a.bin", "x/sub/a.bin")
+		case "mv-x-to-y":
+			mv("x/a.bin", "y/a.bin")
+		case "mv-y-to-x":
+			mv("y/b.bin", "x/b.bin")
+		case "mv-swap":
+			mv("x/a.bin", "y/a.bin")
+			mv("y/b.bin", "x/b.bin")
+		case "mv-x-to-y-edit":
+			mv("x/a.bin", "y/a.bin")
+			b.set("y/a.bin", "g1")
+		case "cp-x-to-y":
+			cp("x/a.bin", "y/c.bin")
+		case "cp-y-to-x":
+			cp("y/b.bin", "x/c.bin")
+		}
 	case "all":
 		b.local("stash-u")
 		b.local("wt-detached-staged")
@@ -504,10 +562,20 @@ func c05BuildWorld(spec worldSpec) (wd *world) {
 	case 2:
 		b.A = "d/a.bin"
 	}
+	if spec.Hist == "XY" {
+		b.A, b.B = "x/a.bin", "y/b.bin"
+	}
 	if strings.HasPrefix(spec.Hist, "R") && spec.Hist != "RT" {
 		b.repo = w.Init("repo", false)
 		wd.repo = b.repo
 		b.rich()
+	} else if spec.Hist == "XY" {
+		b.repo = w.Init("repo", false)
+		wd.repo = b.repo
+		b.history()
+		b.push()
+		b.head()
+		b.local(spec.Local)
 	} else if spec.Local == "none" {
 		b.repo = w.Init("repo", false)
 		wd.repo = b.repo
